@@ -18,24 +18,52 @@ from . import c06
 
 LEVEL = 'other'
 
-ALLOWED_MINT_FNS = {'execute_instructions', 'Term::clone', 'Term::Proved', 'Entry::Proved'}
-
-
 def s1_minting(ctx, r: Rust, arms):
     where = r.line_of('execute_instructions')
-    # (a) crate-wide: aggregates that build a Proved outside the allowed functions
+    # (a) crate-wide: a function other than the interpreter loop may build a Proved value only as a conversion that preserves
+    #     provedness - on a path where one of its parameters IS a Proved (Term or Entry) and with that parameter's payload
+    #     (derive(Clone), Term <-> Entry conversions).  Anything else mints a theorem outside the rule arms.
     sites = 0
+
+    def proved_aggs(v, out):
+        if isinstance(v, tuple):
+            if v and v[0] == 'agg' and isinstance(v[1], str) and v[1].endswith('::Proved'):
+                out.append(v)
+            for x in v:
+                proved_aggs(x, out)
+        return out
+
     for fn in r.fns.values():
+        has = False
         for b in fn.blocks.values():
             if b.cleanup:
                 continue
             for st in b.stmts + [b.term]:
                 if re.search(r'= (Term|Entry)::Proved\(', st):
                     sites += 1
-                    ok = fn.short in ALLOWED_MINT_FNS
-                    if not ok:
-                        ctx.ob('minting', f'{fn.short}', False,
-                               f'function {fn.short} constructs a Proved term; only the rule arms of execute_instructions may', r.line_of(fn.short))
+                    has = True
+        if not has or fn.short in ('execute_instructions', 'Term::Proved', 'Entry::Proved'):
+            continue
+        try:
+            fpaths = r.paths(fn.short)
+        except Exception as ex:  # noqa: BLE001
+            ctx.ob('minting', f'{fn.short}', False,
+                   f'function {fn.short} constructs a Proved term and cannot be evaluated ({ex}); only the rule arms of '
+                   f'execute_instructions and provedness-preserving conversions may', r.line_of(fn.short))
+            continue
+        for p in fpaths:
+            if p.end != 'return':
+                continue
+            aggs = proved_aggs(p.ret, [])
+            for ev in p.events:
+                proved_aggs(tuple(ev) if isinstance(ev, (list, tuple)) else (), aggs)
+            for g in aggs:
+                payload = g[2][0][1] if g[2] else None
+                ok = bool(payload) and payload[0] == 'field' and payload[2] == 'Proved' and payload[1][0] == 'param' \
+                    and any(a[0] == 'variant' and a[1] == payload[1] and o == 'Proved' for a, o in p.conds)
+                ctx.ob('minting', f'{fn.short}/{g[1]}', ok,
+                       f'function {fn.short} constructs a Proved term ({mireval.show(g)}) that is not the payload of a parameter already '
+                       f'known to be Proved; only the rule arms of execute_instructions may mint theorems', r.line_of(fn.short))
     # derive(Clone) must map Proved to Proved and Pattern to Pattern
     for p in r.paths('Term::clone'):
         if p.end == 'return' and p.conds:
